@@ -55,7 +55,9 @@ class C19(Prop):
             nodes.append({"id": i + 1, "addrs": [[ip(i), port(i)]]})
             resolver[fqdn(i)] = [["inet", ip(i)]]
         use_vpc = rng.random() < 0.5
-        ck = {"use_vpc": use_vpc, "default_noreply": False, "timeout": 1, "connect_timeout": 1}
+        # use_vpc as configuration files deliver it: the bool, or the integers 1 / 0
+        ck = {"use_vpc": (use_vpc if rng.random() < 0.7 else int(use_vpc)), "default_noreply": False, "timeout": 1,
+              "connect_timeout": 1}
         if rng.random() < 0.3:
             ck["use_pooling"] = True
         if rng.random() < 0.3:
